@@ -13,7 +13,7 @@ Go                                                        here
 `Label.HasParent()`, `Label.Parent()`                     `G.hasParent`, `G.pl`
 `PrefixedLabels("gc_sibling:")` that exist as targets     `G.sibs t` (in label order; gcSibling takes the first)
 `AllLocalSourcePaths()`                                   `G.srcs t` (file ids, numbered in path order)
-data files (`AllData()` file labels)                      `G.data t` (specification only: the code never reads them)
+data files (`AllData()` file labels)                      `G.data t`
 `keepTargets` map                                         membership list
 `anyInclude(targetsToKeep, l)`, `isIncluded(t, filter)`   exact labels only (`named`, `filter` id lists); wildcards are C20's subject
 `pkg.Subincludes`                                         `Q.subincs`
@@ -125,8 +125,8 @@ def removable (G : Graph) (Q : Query) (keep : List Nat) (t : Nat) : Bool :=
 def removeTargets (G : Graph) (Q : Query) (keep : List Nat) : List Nat :=
   G.nodes.filter (removable G Q keep)
 
-/-- `keepSrcs` -/
-def keepSrcs (G : Graph) (keep : List Nat) : List Nat := keep.flatMap G.srcs
+/-- `keepSrcs`: the local sources and the local data files of everything kept -/
+def keepSrcs (G : Graph) (keep : List Nat) : List Nat := keep.flatMap fun k => G.srcs k ++ G.data k
 
 /-- source files proposed for deletion (before sorting; repeats are kept, as in the Go slice) -/
 def removeSrcs (G : Graph) (Q : Query) (keep : List Nat) : List Nat :=
